@@ -567,6 +567,7 @@ def cases(rng, ctx):
         forms = sorted(rng.sample(forms, 120))
     out.append({'kind': 'debug', 'formulas': forms})
     out.append({'kind': 'inert', 'formulas': sorted(rng.sample(VALID_MODEL + VALID_WILD, 40))})
+    out.append({'kind': 'transient', 'formulas': sorted(rng.sample(VALID_MODEL + VALID_WILD, 25))})
     out.append({'kind': 'debug', 'formulas': tree_formulas(rng, 300 if thorough else 60, 5) + generic_calls(rng, 600 if thorough else 80)})
     # (c) host values
     common.load_repo()
@@ -872,6 +873,63 @@ def run_inert(c):
                 findings.append('%r: without any listener %s, %s %s' % (f, safe_repr(r0[i]), tag, safe_repr(rs[i])))
                 break
     return {'findings': findings[:5], 'printed': {'off': 0, 'on': 1, 'toggle': 0}, 'n': len(forms)}
+
+
+def run_transient(c):
+    """what a listener hands over is the value of THAT evaluation: once the listener has no opinion any more (it sets nothing,
+    or was removed with off()), the outcome is what a fresh parser with the same registrations gives - the earlier answer has
+    not become a registration"""
+    regs = std_regs(False)
+    findings = []
+
+    def build(answering):
+        lv = Live()
+        for r in regs:
+            lv.apply(r)
+        lv.p.set_variable('rate', 2)
+        state = {'on': answering}
+
+        def on_var(name, setter):
+            if state['on'] and name in ('bonus', 'rate'):
+                setter({'bonus': 7, 'rate': 5}[name])
+
+        def on_cell(cell, setter):
+            if state['on'] and cell.label == 'Q7':
+                setter(40)
+
+        def on_fn(name, args, setter):
+            if state['on'] and name == 'SUM':
+                setter(1000)
+        lv.p.on('callVariable', on_var)
+        lv.p.on('callCellValue', on_cell)
+        lv.p.on('callFunction', on_fn)
+        return lv, state, (on_var, on_cell, on_fn)
+    forms = ['bonus+1', 'rate*10', 'Q7+1', 'SUM(1,2)', 'ISBLANK(Q7)', 'rate&"x"', 'bonus'] + list(c['formulas'])
+    err = io.StringIO()
+    with contextlib.redirect_stderr(err):
+        ref, _, _ = build(False)                      # never answers
+        want_off = [ref.p.parse(f) for f in forms]
+        lv, state, hs = build(True)
+        got_on = [lv.p.parse(f) for f in forms]       # answers
+        state['on'] = False
+        got_off = [lv.p.parse(f) for f in forms]      # has no opinion any more
+        lv2, state2, hs2 = build(True)
+        [lv2.p.parse(f) for f in forms]
+        lv2.p.off('callVariable', hs2[0])
+        lv2.p.off('callCellValue', hs2[1])
+        lv2.p.off('callFunction', hs2[2])
+        got_removed = [lv2.p.parse(f) for f in forms]
+        regs_after = (lv.p.variables.get('rate'), 'bonus' in lv.p.variables)
+    answered = sum(1 for a, b in zip(got_on, want_off) if not strict_same(a, b))
+    for i, f in enumerate(forms):
+        for tag, rs in (('after the listeners stopped answering', got_off), ('after the listeners were removed', got_removed)):
+            if not strict_same(rs[i], want_off[i]):
+                findings.append('%r %s gives %s; a parser whose listeners never answered gives %s (while they answered: %s)' % (
+                    f, tag, safe_repr(rs[i]), safe_repr(want_off[i]), safe_repr(got_on[i])))
+                break
+    if regs_after != (2, False):
+        findings.append('evaluations changed the registered variables: rate is %r (registered: 2), bonus registered: %r' % regs_after)
+    return {'findings': findings[:5], 'printed': {'off': 0, 'on': answered, 'toggle': 0}, 'n': len(forms)}
 
 
 def run_debug(c):
@@ -1205,6 +1263,8 @@ def impl(c):
             return run_debug(c)
         if k == 'inert':
             return run_inert(c)
+        if k == 'transient':
+            return run_transient(c)
         if k in ('immut-fn', 'immut-ops'):
             return run_immut(c)
         if k in ('memory', 'memory-distinct'):
@@ -1235,6 +1295,10 @@ def oracle(c, ans):
         if ans['findings']:
             return '[inert listener] ' + ans['findings'][0]
         return None
+    if k == 'transient':
+        if ans['findings']:
+            return '[listener answers are not registrations] ' + ans['findings'][0]
+        return None
     if k in ('immut-fn', 'immut-ops'):
         if ans['findings']:
             return '[host-value immutability] ' + ans['findings'][0]
@@ -1255,7 +1319,7 @@ def nontrivial(c, ans):
     if k == 'history':
         s = ans['stats']
         return s['failed'] > 0 and s['rereg'] > 0 and s['raising'] > 0 and s['probe_cmp'] > 0
-    if k in ('debug', 'inert'):
+    if k in ('debug', 'inert', 'transient'):
         return ans['printed']['on'] > 0
     if k in ('immut-fn', 'immut-ops'):
         return ans['n'] > 0
@@ -1271,6 +1335,8 @@ def weight(c, ans):
         return (3 * ans['n'], ans['n'], 0)
     if k == 'inert':
         return (5 * ans['n'], 4 * ans['n'], 0)
+    if k == 'transient':
+        return (5 * ans['n'], 2 * ans['n'], 0)
     if k in ('immut-fn', 'immut-ops'):
         return (ans['n'], ans['n'], 0)
     if k in ('memory', 'memory-distinct'):
